@@ -542,6 +542,18 @@ func descCond(cond ssa.Value, val bool) string {
 				}
 			}
 			strEmpty, zero := "", false
+			// b.Len() of a strings.Builder / bytes.Buffer compared with 0 or 1: the text collected so
+			// far is (not) empty, like s == "" for `s += piece`
+			if k, ok := by.(*ssa.Const); ok && isBufferLen(bx) && k.Value != nil {
+				if n, isInt := constant.Int64Val(constant.ToInt(k.Value)); isInt {
+					switch {
+					case n == 1 && op == token.LSS, n == 0 && op == token.LEQ, n == 0 && op == token.EQL:
+						return `"" == var:string`
+					case n == 1 && op == token.GEQ, n == 0 && op == token.GTR, n == 0 && op == token.NEQ:
+						return `"" != var:string`
+					}
+				}
+			}
 			if k, ok := by.(*ssa.Const); ok && isLenCall(bx) && k.Value != nil {
 				if n, isInt := constant.Int64Val(constant.ToInt(k.Value)); isInt {
 					switch {
@@ -577,6 +589,23 @@ func descCond(cond ssa.Value, val bool) string {
 		return "!" + d
 	}
 	return d
+}
+
+// isBufferLen: b.Len() of a strings.Builder or bytes.Buffer.
+func isBufferLen(v ssa.Value) bool {
+	c, ok := v.(*ssa.Call)
+	if !ok {
+		return false
+	}
+	f := c.Common().StaticCallee()
+	if f == nil {
+		return false
+	}
+	switch rawShortName(f) {
+	case "(*strings.Builder).Len", "(*bytes.Buffer).Len":
+		return true
+	}
+	return false
 }
 
 func isLenCall(v ssa.Value) bool {
